@@ -833,7 +833,8 @@ class eq_hyp:
 class path_hyps:
     """Polynomial equalities of a path (`if q.magnitude2() == 1 { shortcut }`) installed as rewrite hypotheses for the
     duration of a comparison: P == Q with P - Q = c*v^k + rest (v in no other monomial) gives v^k -> -rest/c.
-    Only equalities the path really tests are used, so the leaf is compared exactly under its own path condition."""
+    Only equalities the path really tests are used, so the leaf is compared exactly under its own path condition.
+    Every equality is also recorded (ACTIVE_PATH_DIFFS) for the divisibility / ideal-membership fallback."""
 
     def __init__(self, S, guards, field_div=None):
         self.S, self.guards, self.field_div = S, guards, field_div
@@ -843,59 +844,21 @@ class path_hyps:
         self.saved = dict(A.CTX.hyps)
         self.ndiffs = len(ACTIVE_PATH_DIFFS)
         cv = Conv(self.S, field_div=self.field_div)
-        K = A.CTX.kind
         for a, b in _path_eq_pairs(self.S, self.guards):
-            try:
-                ACTIVE_PATH_DIFFS.append((cv.el(a) - cv.el(b)).norm())
-            except Exception:
-                pass
-            if self.S.terms[a][0] == 'v' or self.S.terms[b][0] == 'v':
-                continue
             try:
                 d = (cv.el(a) - cv.el(b)).norm()
             except Exception:
                 continue
-            if d.zero():
+            ACTIVE_PATH_DIFFS.append(d)
+            if self.S.terms[a][0] == 'v' or self.S.terms[b][0] == 'v':
                 continue
-            if d.has_defined():
-                # clear the denominators: inv[P]^e terms multiplied away (P != 0 is the standing side condition)
-                for _ in range(3):
-                    dens = {}
-                    for m in d.t:
-                        for v, e in m:
-                            if K[v][0] == 'inv' and e > 0:
-                                dens[v] = max(dens.get(v, 0), e)
-                    if not dens:
-                        break
-                    mul = ONE
-                    for v, e in dens.items():
-                        mul = mul * (K[v][1] ** e)
-                    d = (d * mul).norm()
-                if d.zero() or d.has_defined():
-                    continue
-            # negative powers of plain atoms (x^-1 == 1): multiply through (x != 0 is implied by the division itself)
-            negs = {}
-            for m in d.t:
-                for v, e in m:
-                    if e < 0 and K[v][0] == 'base':
-                        negs[v] = min(negs.get(v, 0), e)
-            if negs:
-                mul = El({tuple(sorted((v, -e) for v, e in negs.items())): Fr(1)})
-                d = d.rawmul(mul).norm()
-                if d.zero():
-                    continue
-            cands = []
-            for m, c in d.t.items():
-                if len(m) == 1 and m[0][1] >= 1 and K[m[0][0]][0] == 'base' and m[0][0] not in A.CTX.hyps:
-                    v = m[0][0]
-                    if all(m2 is m or all(v2 != v for v2, _ in m2) for m2 in d.t):
-                        cands.append((v, m, c))
-            if not cands:
-                continue
-            v, m, c = max(cands, key=lambda x: x[0])
-            rest = El({m2: c2 for m2, c2 in d.t.items() if m2 != m})
-            A.CTX.hyps[v] = (m[0][1], rest * El.c(Fr(-1) / c))
-            self.installed.append(v)
+            try:
+                h = _hyp_from_difference(d)
+            except Exception:
+                h = None
+            if h is not None and h[0] not in A.CTX.hyps:
+                A.CTX.hyps[h[0]] = (h[1], h[2])
+                self.installed.append(h[0])
         return self
 
     def __exit__(self, *exc):
